@@ -350,6 +350,9 @@ func (g *gen) minsize(ct geom.CoordinatesType) *lib.Node {
 	mix := func(kind lib.Kind, empty func() *lib.Node, full func() *lib.Node) *lib.Node {
 		n := &lib.Node{Kind: kind, CT: ct}
 		k := r.Range(1, 7)
+		if r.Chance(1, 3) {
+			k = r.Range(8, 14)
+		}
 		pos := r.Intn(k + 1)
 		for i := 0; i <= k; i++ {
 			if i == pos {
@@ -405,6 +408,14 @@ func (g *gen) minsize(ct geom.CoordinatesType) *lib.Node {
 	}
 	g.stats["minsize_top"]++
 	return core
+}
+
+func pow10i(q int) int64 {
+	v := int64(1)
+	for i := 0; i < q; i++ {
+		v *= 10
+	}
+	return v
 }
 
 func ip(v int) *int { return &v }
@@ -592,7 +603,16 @@ func main() {
 		case "idmismatch":
 			force = 3 + r.Intn(4)
 		}
-		if class == "f19" {
+		if class == "f19" && ct != geom.DimXY && r.Chance(1, 3) {
+			// finding F73: closing vertex differs from the first one in Z/M only
+			n = g.polyAt(ct, g.k(), g.k(), 0)
+			ring := n.Kids[0]
+			last := ring.C[len(ring.C)-1]
+			last[2] += g.ord(int64(r.Range(1, 9)) * pow10i(g.q))
+			last[3] -= g.ord(int64(r.Range(1, 9)) * pow10i(g.q))
+			ring.C[len(ring.C)-1] = last
+			stats["f73_inputs"]++
+		} else if class == "f19" {
 			n, _ = g.f19(ct)
 			if r.Bool() {
 				n = &lib.Node{Kind: lib.KMPoly, CT: ct, Kids: []*lib.Node{n, g.polyAt(ct, 1000, 1000, 0)}}
